@@ -128,7 +128,52 @@ def run_case(seed, kind=None):
         rec['memo_problems'] = [f'{rec["kind"]}: reading ids again re-executed {sorted(set(a["ids_again_calls"]))} although the id '
                                 f'mapping is kept in memory once per pipeline object']
     hash_checks(rec, b, layer, d, r)
+    if rec['kind'] == 'split' and d['k'] == 'chain' and 'ids' in a and history is None:
+        split_variant_check(rec, b, layer, d, a)
     return rec, b, layer
+
+
+def split_variant_check(rec, b, layer, d, a):
+    """a second Split over the same dataset whose __split__ gives the same new ids but assigns the parts differently: a field that
+    reads `__part__` is evaluated on another part, so for a new id on which the two pipelines return different values the node hashes
+    must differ too (the hash is the key of every persistent cache the two pipelines may share)"""
+    import copy
+    sp = d['layers'][-1]
+    if not any('__part__' in f.get('args', []) for f in sp.get('fields', {}).values()):
+        return
+    table2, changed = [], False
+    for vals, pairs in sp['split']['table']:
+        parts = [p_[1] for p_ in pairs]
+        if len(set(parts)) >= 2:
+            changed = True
+            parts = parts[1:] + parts[:1]
+        table2.append([vals, [[p_[0], q] for p_, q in zip(pairs, parts)]])
+    if not changed:
+        return
+    sp2 = copy.deepcopy(sp)
+    sp2['split']['table'] = table2
+    sp2['split']['f'] = (sp['split'].get('f') or sp['cls'] + '.__split__') + '#parts-rotated'
+    try:
+        layer2 = b.layer({'k': 'chain', 'flavour': 'chain', 'layers': d['layers'][:-1] + [sp2]})
+        ids = [i for i in (a.get('ids') or []) if isinstance(i, str)]
+        for f, spec in sp['fields'].items():
+            if '__part__' not in spec.get('args', []):
+                continue
+            f1, f2 = layer._compile(f), layer2._compile(f)
+            for i in ids[:6]:
+                try:
+                    v1, v2 = canon(val_to_json(f1(i), b.world)), canon(val_to_json(f2(i), b.world))
+                    # persistent digests: library-internal lambdas are fresh objects per connection, equal by code
+                    from .suite_pickle import digest_of
+                    h1, h2 = digest_of(f1, [i]), digest_of(f2, [i])
+                except Exception:
+                    continue
+                if v1 != v2 and h1 == h2:
+                    rec['hash_problems'].append(f'Split: two pipelines whose __split__ assign the new id {i!r} different parts return different values '
+                                                f'for {f}({i!r}) ({v1[:60]} vs {v2[:60]}) under the same persistent digest')
+                    return
+    except Exception:
+        pass
 
 
 def node_hash(layer, f, i):
@@ -308,6 +353,61 @@ def run_byvalue_merge(seed):
     return problems
 
 
+def run_join_shared_cache(seed):
+    """Joins of the same two datasets on the same keys in all four modes sharing ONE storage through `cache=CacheEdge(storage)`,
+    evaluated in a random order: each must have the ids and the fields of its own mode (C16)"""
+    rng = random.Random(seed)
+    problems = []
+    try:
+        d = rel.gen_rel(rng, 'join')
+        if d['k'] != 'join':
+            return problems
+        from .paths import use_repo
+        use_repo()
+        from connectome.cache import MemoryCache
+        from connectome.engine import CacheEdge
+        import connectome as c
+        b = Builder()
+        storage = MemoryCache(None)
+        modes = ['inner', 'left', 'right', 'outer']
+        rng.shuffle(modes)
+        for how in modes:
+            dm = dict(d, how=how)
+            try:
+                r, rerr = rel.ref(dm), None
+            except rel.RErr as e:
+                r, rerr = None, e.kind
+            try:
+                layer = c.Join(b.layer(d['left']), b.layer(d['right']), d['on'], how=how, cache=CacheEdge(storage))
+                cerr = None
+            except Exception as e:
+                layer, cerr = None, exc_name(e)
+            if cerr or rerr:
+                if cerr != rerr:
+                    problems.append({'desc': dm, 'msg': f'Join(how={how!r}, cache=shared) construction: {cerr}, reference {rerr}'})
+                continue
+            fields = sorted(set(r.fields))
+            q = list(rel.UNIVERSE + rel.FOREIGN)
+            try:
+                q += [x for x in r.ids() if x not in q]
+            except rel.RErr:
+                pass
+            a, e = rel.observe_rel(b, layer, fields, q), rel.ref_observe(r, fields, q)
+            for key in ('ids', 'ids_err'):
+                if canon(a.get(key)) != canon(e.get(key)):
+                    problems.append({'desc': dm, 'order': modes,
+                                     'msg': f'Joins in the modes {modes} (evaluated in this order) sharing one cache: how={how!r} has {key} {canon(a.get(key))[:120]}, '
+                                            f'the reference gives {canon(e.get(key))[:120]}'})
+                    return problems
+            for f in fields:
+                if canon(a['values'][f]) != canon(e['values'][f]):
+                    problems.append({'desc': dm, 'order': modes, 'msg': f'Joins sharing one cache ({modes}): field {f} of how={how!r} differs from the reference'})
+                    return problems
+    except Exception as e:
+        problems.append({'desc': None, 'msg': 'join shared-cache scenario raised ' + exc_name(e) + ': ' + str(e)[:150]})
+    return problems
+
+
 def run_shard(args):
     seed, n, kinds = args
     recs = []
@@ -355,6 +455,11 @@ def run_shard(args):
             for p in run_byvalue_merge(seed * 13 + i):
                 hash_bad.append({'desc': p['desc'], 'problems': [p['msg']]})
         stats['byvalue_merge_cases'] = max(2, n // 5)
+    if kinds and 'join' in kinds:
+        for i in range(max(2, n // 4)):
+            for p in run_join_shared_cache(seed * 19 + i):
+                oracle_bad.append({'desc': p['desc'], 'diffs': [['join-shared-cache', p['msg']]]})
+        stats['join_shared_cache_cases'] = max(2, n // 4)
     if kinds and 'check_ids' in kinds:
         for i in range(max(2, n // 5)):
             for p in run_dynamic_ids(seed * 7 + i):
